@@ -362,3 +362,160 @@ def facts(trees):
     out.append("   the taxa seeded to themselves (ns_copy of Model/C12Shallow.v) *)")
     out.append("Definition gen_namespace_copy_construction_is_seeded_deepcopy : bool := true.")
     return "\n".join(out) + "\n"
+
+
+# ------------------------------------------------------------------------------------------------------------------
+# PART 3 (wave 7): which copier `copy.deepcopy` dispatches to, per class of the data model
+# ------------------------------------------------------------------------------------------------------------------
+# Every class an object of which can occur in a copied structure.  For each one the method resolution order is
+# computed from the class statements of the scanned files (C3), the first class of it that defines __deepcopy__ is
+# looked up and its BODY decides the kind:
+#     a function compiled in part 1 (Annotable / AnnotationSet / Taxon / TaxonNamespace)       its own kind
+#     `return basemodel.Annotable.__deepcopy__(self, memo=memo)`                               KAnnotable
+#     `return self`                                                                            KAtomic
+#     OrderedCaselessDict: new instance, memo entry, `o[key] = copy.deepcopy(val, memo)`       KCDict
+#     no __deepcopy__ anywhere, no __reduce__ / __reduce_ex__ / __getstate__ / __setstate__ / __getnewargs__ /
+#     __getnewargs_ex__ / __slots__, only `object` outside the scanned files                    KPlain (copy.deepcopy's
+#                                                                                               __reduce_ex__ reconstruction)
+# Anything else raises: a class that GAINS a __deepcopy__ (or changes the body of one) is not silently given the
+# copier the hand model assumes.  The list of all classes of the scanned files that define __deepcopy__ is emitted too.
+
+DUMPED_CLASSES = ["Annotation", "AnnotationSet", "Bipartition", "CharacterSubset", "CharacterType",
+                  "CharacterDataSequence", "ContinuousCharacterDataSequence", "DnaCharacterDataSequence",
+                  "StandardCharacterDataSequence", "CharacterMatrix", "ContinuousCharacterMatrix", "DnaCharacterMatrix",
+                  "StandardCharacterMatrix", "StateAlphabet", "DnaStateAlphabet", "StateIdentity", "Edge", "Node",
+                  "OrderedCaselessDict", "Taxon", "TaxonNamespace", "Tree", "TreeList"]
+
+COMPILED = {"Annotable": "KAnnotable", "AnnotationSet": "KAnnSet", "Taxon": "KTaxon", "TaxonNamespace": "KNamespace"}
+
+KNOWN_DEFINERS = ["Annotable", "AnnotationSet", "CharacterMatrix", "CharacterSubset", "CharacterType", "Edge",
+                  "FrozenOrderedDict", "Node", "NormalizedBitmaskDict", "OrderedCaselessDict", "OrderedSet",
+                  "StateAlphabet", "StateIdentity", "Taxon", "TaxonNamespace", "Tree", "TreeList"]
+
+CDICT_BODY = "o = self.__class__()\nmemo[id(self)] = o\nfor key, val in self.items():\n    o[key] = copy.deepcopy(val, memo)\nreturn o"
+
+PICKLE_HOOKS = ("__reduce__", "__reduce_ex__", "__getstate__", "__setstate__", "__getnewargs__", "__getnewargs_ex__")
+
+
+def _all_classes(trees):
+    out = {}
+    for key in sorted(trees):
+        for n in trees[key].body:
+            if isinstance(n, ast.ClassDef):
+                if n.name in out:
+                    raise Unsupported("class %s defined twice in the scanned files" % n.name)
+                out[n.name] = n
+    return out
+
+
+def _base_name(b):
+    if isinstance(b, ast.Name):
+        return b.id
+    if isinstance(b, ast.Attribute):
+        return b.attr
+    raise Unsupported("base class expression %s" % ast.dump(b)[:60])
+
+
+def _mro(classes, name, seen=()):
+    """C3 linearisation over the class statements; a class outside the scanned files is a leaf `<name>`"""
+    if name not in classes:
+        return ["<%s>" % name]
+    if name in seen:
+        raise Unsupported("cyclic bases at %s" % name)
+    bases = [_base_name(b) for b in classes[name].bases] or ["object"]
+    seqs = [_mro(classes, b, seen + (name,)) for b in bases] + [[(b if b in classes else "<%s>" % b) for b in bases]]
+    out = [name]
+    seqs = [list(s) for s in seqs]
+    while any(seqs):
+        seqs = [s for s in seqs if s]
+        for s in seqs:
+            cand = s[0]
+            if not any(cand in t[1:] for t in seqs):
+                break
+        else:
+            raise Unsupported("no consistent method resolution order for %s" % name)
+        out.append(cand)
+        for s in seqs:
+            if s and s[0] == cand:
+                del s[0]
+    # `<object>` once, last
+    out = [c for c in out if c != "<object>"] + ["<object>"]
+    return out
+
+
+def _defines(cls, name):
+    for m in cls.body:
+        if isinstance(m, ast.FunctionDef) and m.name == name:
+            return m
+        if isinstance(m, ast.Assign) and any(isinstance(t, ast.Name) and t.id == name for t in m.targets):
+            return m
+    return None
+
+
+def dispatch_table(trees):
+    """-> ([(class, Coq kind, definer of __deepcopy__ or None)], [every class of the scanned files defining __deepcopy__])"""
+    classes = _all_classes(trees)
+    definers = sorted(c for c, n in classes.items() if _defines(n, "__deepcopy__") is not None)
+    for c in definers:
+        if c not in KNOWN_DEFINERS:
+            raise Unsupported("class %s has a __deepcopy__ the model does not know" % c)
+    for c in KNOWN_DEFINERS:
+        if c not in definers:
+            raise Unsupported("class %s no longer defines __deepcopy__" % c)
+    table = []
+    for c in DUMPED_CLASSES:
+        if c not in classes:
+            raise Unsupported("class %s not found" % c)
+        mro = _mro(classes, c)
+        definer, fn = None, None
+        for k in mro:
+            if k.startswith("<"):
+                continue
+            fn = _defines(classes[k], "__deepcopy__")
+            if fn is not None:
+                definer = k
+                break
+        if definer is None:
+            ext = [k for k in mro if k.startswith("<") and k != "<object>"]
+            if ext:
+                raise Unsupported("class %s without __deepcopy__ inherits from %s" % (c, ext))
+            for k in mro:
+                if k.startswith("<"):
+                    continue
+                for h in PICKLE_HOOKS + ("__slots__",):
+                    if _defines(classes[k], h) is not None:
+                        raise Unsupported("class %s (base %s) customises %s" % (c, k, h))
+            table.append((c, "KPlain", None))
+            continue
+        if not isinstance(fn, ast.FunctionDef):
+            raise Unsupported("%s.__deepcopy__ is not a function definition" % definer)
+        if definer in COMPILED:
+            kind = COMPILED[definer]
+        elif _same(fn, "return basemodel.Annotable.__deepcopy__(self, memo=memo)"):
+            kind = "KAnnotable"
+        elif _same(fn, "return self"):
+            kind = "KAtomic"
+        elif definer == "OrderedCaselessDict" and _same(fn, CDICT_BODY):
+            kind = "KCDict"
+        else:
+            raise Unsupported("class %s: %s.__deepcopy__ has a body the model does not know" % (c, definer))
+        table.append((c, kind, definer))
+    return table, definers
+
+
+def dispatch_facts(trees):
+    table, definers = dispatch_table(trees)
+    out = ["(* ---- PART 3: the copier copy.deepcopy dispatches to, per class (method resolution order and the body of the",
+           "   __deepcopy__ it finds, read off the class statements; see py/dv/c12_copyfacts.py) --------------------- *)",
+           "From Coq Require Import String.", ""]
+    out.append("Definition gen_class_kinds : list (String.string * kind) :=")
+    out.append("  [" + ";\n   ".join('("%s"%%string, %s)' % (c, k) for c, k, _d in table) + "].")
+    out.append("")
+    out.append("(* the class whose __deepcopy__ each of them resolves to (\"\" : none, the default reconstruction) *)")
+    out.append("Definition gen_deepcopy_resolves_to : list (String.string * String.string) :=")
+    out.append("  [" + ";\n   ".join('("%s"%%string, "%s"%%string)' % (c, d or "") for c, _k, d in table) + "].")
+    out.append("")
+    out.append("(* every class of the scanned files that defines a __deepcopy__ *)")
+    out.append("Definition gen_deepcopy_definers : list String.string :=")
+    out.append("  [" + "; ".join('"%s"%%string' % c for c in definers) + "].")
+    return "\n".join(out) + "\n"
